@@ -107,8 +107,10 @@ def _implied_timescales(tmat, lagtime, ntimescales):
 
     eigenvalues = linalg.left_eigenvalues(tmat, nvals=ntimescales + 1)
     # for negative eigenvalues no timescale is defined
-    eigenvalues[eigenvalues < 0] = np.nan
-    return np.ma.divide(- lagtime, np.log(eigenvalues[1:]))
+    eigenvalues[eigenvalues <= 0] = np.nan
+    return np.ma.divide(
+        - lagtime, np.log(eigenvalues[1:]),
+    ).filled(np.nan)
 
 
 def _estimate_times(
